@@ -136,11 +136,13 @@ def handle (args : List String) : String :=
   | "params" :: so :: b :: hs =>
     match hs.mapM ofHex with
     | some as =>
-      match params (so = "1") (ofBits b) as with
+      match params (ofBits b) as with
       | .ok st => "ok " ++ bits st.opts ++ " " ++
           (match st.params with
            | none => "keep"
-           | some ps => "set" ++ String.join (ps.map fun x => ":" ++ toHex x)) ++ " " ++ toString st.listings
+           | some ps => "set" ++ String.join (ps.map fun x => ":" ++ toHex x)) ++ " " ++
+          -- so = "0": Params ran as an option of New before any StdIO: the listing went to io.Discard
+          (if so = "1" then toString st.listings else "-")
       | .err w => "err " ++ toHex w
       | .panic => "panic"
       | .outOfFuel => "out-of-fuel"
